@@ -178,7 +178,7 @@ def run(ctx):
         ctx.assume('R-DOM', 'D1', func, node, f'gate::{norm(node.test)}',
                    f'mode-related test in {func.qualname}', detail=text)
     ctx.floor('C11 mutating public entry points', len(mut_entries), 14)
-    ctx.floor('C11 effect sites under entries', nsites, 40)
+    ctx.floor('C11 effect sites under entries', nsites, 25)
     ctx.info['entries'] = [f.qualname for f in mut_entries]
     ctx.info['effect_sites_under_entries'] = nsites
     ctx.info['creators_excluded'] = CREATORS
